@@ -13,6 +13,7 @@ import (
 	"sort"
 	"strconv"
 	"strings"
+	"time"
 	"unicode"
 	"unicode/utf8"
 
@@ -92,6 +93,7 @@ func init() {
 	native("fmt.Sprintf", fmt.Sprintf)
 	native("fmt.Sprintln", fmt.Sprintln)
 	native("fmt.Errorf", fmt.Errorf)
+	native("time.Parse", time.Parse)
 }
 
 var errorIface = reflect.TypeOf((*error)(nil)).Elem()
